@@ -11,6 +11,7 @@ NOTE = ("trusted: gosym interpreter and simplifier (cross-checked on every run b
 # id -> (claimed text, design_ref) ; absent => not_applicable with reason
 CLAIMED = {
  "C10": ("CellBytes numeric cases against an independent two's-complement / unsigned reference for the ENTIRE 8/16/24/32/64-bit domains in both signedness modes (text must be canonical decimal that parses to the exact value), FLOAT/DOUBLE round-trip through strconv's documented shortest-representation contract, YEAR, BIT(1..64) with symbolic metadata, ENUM 1-2 bytes, SET 1..8 bytes; every cell byte is a solver variable", "DESIGN.md 3/C10"),
+ "C11": ("CellBytes NEWDECIMAL for (p,s) pairs (quick: all p<=20 plus group-boundary precisions, 278 pairs; thorough: all 1580 valid pairs): every storage byte symbolic, every representable value; the text is scanned ('-', canonical integer digits, '.', exactly s digits) and every 9-digit group proved equal to the reference from MySQL decimal.c; cellLength agreement included", "DESIGN.md 3/C11"),
  "C12": ("CellBytes DATE/NEWDATE, old TIME/DATETIME/TIMESTAMP, TIMESTAMP2/DATETIME2/TIME2 with fsp 0..6: output text scanned field by field (separators, widths, digits) and every numeric field proved equal to a reference decoder written from MySQL's my_time.c, for all cell bytes denoting valid values (all 2^24..2^48 raw values symbolic); TIMESTAMP fields are the Local-zone calendar fields (uninterpreted functions of (zone, instant))", "DESIGN.md 3/C12"),
  "C17": ("IsValid <=> len>=19 && length field == len, and all header accessors agree with the header bytes, for every byte string of each length 0..64 (thorough 0..300): every byte is a solver variable, every obligation is an unsat query", "DESIGN.md 3/C17"),
 }
